@@ -87,7 +87,10 @@ def check_container(case):
     with contextlib.ExitStack() as stack:
         tmp = sq.tmpdir_for(case)
         tmpdir = stack.enter_context(tmp) if tmp is not None else None
-        w = sq.write(case, tmpdir=tmpdir)
+        try:
+            w = sq.write(case, tmpdir=tmpdir)
+        except sq.Refused:
+            return [*labs, "non-ascii-text:refused"], False
         if case["target"] == "file" and str(w.returned) != w.path:
             raise Violation("returned-path", f"create() returned {w.returned!r} for target {w.path!r}")
         dec = ref.decode(w.bytes)
@@ -97,7 +100,10 @@ def check_container(case):
         order = sorted(case["calls"], key=sq.CALLS.index)
         if order != list(case["calls"]):
             case2 = dict(case, target="bytesio")
-            w2 = sq.write(case2, calls=order)
+            try:
+                w2 = sq.write(case2, calls=order)
+            except sq.Refused:
+                raise Violation("order-dependent-refusal", f"calls {case['calls']} accepted but {order} refused") from None
             dec2 = ref.decode(w2.bytes)
             n2 = [d["name"] for d in dec2["descriptors"]]
             if n2 != names:
